@@ -80,7 +80,8 @@ var c03Faults = &vlib.Check{
 			ft, f = mdl.InjectMacro(r, mt, r.Intn(len(mdl.MacroInjectors)))
 			place = "macro-form"
 		} else {
-			ft, f = mdl.Inject(r, tree, r.Intn(len(mdl.Injectors)))
+			k := r.Intn(len(mdl.Injectors))
+			ft, f = mdl.Inject(r, tree, k)
 			if f != nil {
 				switch place {
 				case "include":
@@ -95,6 +96,19 @@ var c03Faults = &vlib.Check{
 						ft = st
 					}
 				case "macro":
+					if f.Class == "jsight:missing" || f.Class == "jsight:not-first" {
+						// JSIGHT is dropped from / moved down in the macro form of the document: the directive that comes first
+						// instead may be a MACRO definition
+						mt, n, _ := mdl.Macroize(r, tree, 1+r.Intn(2))
+						if n == 0 {
+							place = "direct"
+							break
+						}
+						if ft, f = mdl.Inject(r, mt, k); f == nil {
+							return nil
+						}
+						break
+					}
 					if f.Class == "undefined:macro" || strings.HasPrefix(f.Class, "jsight:") || strings.HasPrefix(f.Class, "duplicate:TAG") {
 						place = "direct"
 						break
